@@ -69,8 +69,18 @@ func check(c Case) vlib.Outcome {
 		return vlib.Excluded("c04-level0-covering-cells")
 	}
 	// polygons are simple loops: the search code is entitled to valid geometry
+	for _, q := range c.Queries {
+		for _, p := range q.Polys {
+			if !wm.ValidPoly(p) {
+				return vlib.Outcome{Skip: true, Classes: []string{"skipped:degenerate-polygon"}}
+			}
+		}
+	}
 	for _, f := range c.Set.Features {
 		for _, p := range f.Polys {
+			if len(p.Loops) > 0 && !wm.ValidPoly(p) {
+				return vlib.Outcome{Skip: true, Classes: []string{"skipped:degenerate-polygon"}}
+			}
 			for _, l := range p.Loops {
 				var ps []s2.Point
 				for _, ll := range l {
